@@ -153,6 +153,12 @@ func c19Flat(c *core.Ctx, p string, limit int, neg, fwd bool, kind string, pinne
 		s.SetForwardIndices(true)
 	}
 	desc := map[string]any{"pattern": p, "limit": limit, "neg": neg, "fwd": fwd, "kind": kind}
+	if !pinned && c.Idx%4 == 1 {
+		// an error left over from an earlier, unrelated call: a Defrag that succeeds leaves Err() nil all the same
+		s.SetErr(errPolicyRejects)
+		desc["prior_error"] = true
+		c.Count("with-prior-error")
+	}
 	before, _ := Take(s)
 	var pn bool
 	var msg, site string
@@ -183,7 +189,12 @@ func c19Flat(c *core.Ctx, p string, limit int, neg, fwd bool, kind string, pinne
 	sig := c19Classify(orig, res)
 	if !strings.Contains(p, ".") {
 		// a stack without nil elements must be left untouched
-		if d := Diff(before, after, DiffOpts{}); d != "" {
+		opts := DiffOpts{}
+		if desc["prior_error"] != nil {
+			// "Err() is nil" and "left untouched" pull in opposite directions for the error slot alone: either is accepted
+			opts.SkipRoot = []string{"err"}
+		}
+		if d := Diff(before, after, opts); d != "" {
 			c.Violatef("defrag:gapfree-changed", desc, "Defrag changed a gap-free stack: %s", d)
 		}
 		c.Count("gap-free")
